@@ -287,6 +287,23 @@ func Root() string {
 	return "/verif"
 }
 
+// EvidenceDir / ReplayDir: where the coordinator writes. Sensitivity runs
+// against seeded changes redirect both (VERIF_EVIDENCE_DIR, VERIF_REPLAY_DIR)
+// so that the committed evidence only ever comes from runs against /repo itself.
+func EvidenceDir() string {
+	if d := os.Getenv("VERIF_EVIDENCE_DIR"); d != "" {
+		return d
+	}
+	return filepath.Join(Root(), "evidence")
+}
+
+func ReplayDir() string {
+	if d := os.Getenv("VERIF_REPLAY_DIR"); d != "" {
+		return d
+	}
+	return filepath.Join(Root(), "replays")
+}
+
 // Coordinate runs a check: fans out workers, aggregates, minimises and
 // reports. It returns the process exit code.
 func Coordinate(c *Check, tier string, self string) int {
@@ -489,9 +506,27 @@ func Coordinate(c *Check, tier string, self string) int {
 
 	// Crashed / hung runs: re-execute in a fresh process; reproducible => violation.
 	for _, p := range a.crashedPlans {
+		// a death whose own output already identifies a listed finding needs no
+		// reproduction (some of them depend on the timing of real goroutines
+		// inside third-party or v2 code and do not reproduce on demand)
+		if se := extraString(p.Extra, "crash_stderr"); se != "" && extraString(p.Extra, "crash_kind") != "hang" {
+			ov := crashViolation(c, crashKind(se), se)
+			listed := ""
+			for _, f := range findings {
+				if f.Kind == "finding" && f.Prop == c.ID && MatchSig(f.Sig, ov.Sig()) {
+					listed = f.Sig
+					break
+				}
+			}
+			if listed != "" {
+				known[listed]++
+				continue
+			}
+		}
 		v := reproduceCrash(c, p, self)
 		if v == nil {
-			a.infra = append(a.infra, fmt.Sprintf("run %d crashed or hung but did not reproduce", p.Run))
+			se := extraString(p.Extra, "crash_stderr")
+			a.infra = append(a.infra, fmt.Sprintf("run %d crashed or hung (%s) but did not reproduce; its signature was %q; stderr tail: %s", p.Run, extraString(p.Extra, "crash_kind"), crashViolation(c, crashKind(se), se).Sig(), tail(se, 1200)))
 			continue
 		}
 		rec := a.vios[v.Sig()]
@@ -507,7 +542,7 @@ func Coordinate(c *Check, tier string, self string) int {
 		sigs = append(sigs, s)
 	}
 	sort.Strings(sigs)
-	_ = os.MkdirAll(filepath.Join(Root(), "replays"), 0o755)
+	_ = os.MkdirAll(ReplayDir(), 0o755)
 	for _, sig := range sigs {
 		rec := a.vios[sig]
 		if rec.v.Symptom == "race" && rec.v.Site == "" {
@@ -570,9 +605,9 @@ func Coordinate(c *Check, tier string, self string) int {
 		cov["samples"] = []interface{}{"(no run completed)"}
 	}
 	ev := Evidence{PropertyID: c.ID, Tier: tier, Seed: int64(seed), Level: c.Level, Coverage: cov, Assumptions: c.Assumptions, WallS: wall, Violations: reported}
-	_ = os.MkdirAll(filepath.Join(Root(), "evidence"), 0o755)
+	_ = os.MkdirAll(EvidenceDir(), 0o755)
 	b, _ := json.MarshalIndent(ev, "", " ")
-	if err := os.WriteFile(filepath.Join(Root(), "evidence", c.ID+".json"), b, 0o644); err != nil {
+	if err := os.WriteFile(filepath.Join(EvidenceDir(), c.ID+".json"), b, 0o644); err != nil {
 		a.infra = append(a.infra, "cannot write evidence: "+err.Error())
 	}
 	zero := []string{}
